@@ -254,7 +254,7 @@ def obligations(tier):
         for rem in subsets:
             out += specs("C16.md.marginal", [{"shape": list(s), "remain": rem, "lo": 2e-8}], ob_md_marginal, 1)
     for s in tiers(tier, [(2, 2)], [(2, 2), (2, 3)]):
-        for rem in ([0], [1], [1, 0]):
+        for rem in tiers(tier, ([0], [1, 0]), ([0], [1], [1, 0])):
             out += specs("C16.md.marginal", [{"shape": list(s), "remain": rem, "lo": 0.0}], ob_md_marginal, 4)
     for s, cv in tiers(tier, [((2, 2), [0]), ((2, 3), [1]), ((3, 2), [0])],
                        [((2, 2), [0]), ((2, 3), [1]), ((3, 2), [0]), ((2, 2, 2), [0, 2]), ((2, 2, 2), [1]), ((2, 3, 2), [1]), ((2, 3, 2), [0, 1])]):
